@@ -104,15 +104,16 @@ fn rms_signal<S, St, const N: usize>(out: &mut Out, reset: &Value, ops: &[Value]
 where
     S: Fmt,
     S::Float: Fmt,
-    St: Slice<Element = FF<S, N>> + SliceMut + Clone,
+    St: Slice<Element = FF<S, N>> + SliceMut + Clone + std::fmt::Debug,
 {
     let cfg = rms_cfg(reset, build, "signal");
     let n = cfg["n"].as_u64().unwrap() as usize;
+    let sc = scale_of(&cfg);
     let gen = cfg["src"] == "gen";
     let queue: Queue<[S; N]> = new_queue();
     // (cfg.srclen, when present, cuts an Iter source short: later calls read past its end, where a finite
     // signal yields equilibrium -- the generator puts equilibrium frames into those events)
-    let mut frames: Vec<[S; N]> = iter_frames(ops, "sig_parts", |v| dec_frame::<S, N>(v));
+    let mut frames: Vec<[S; N]> = iter_frames(ops, "sig_parts", |v| dec_frame_sc::<S, N>(v, sc));
     if let Some(sl) = cfg["srclen"].as_u64() {
         frames.truncate(sl as usize);
     }
@@ -144,7 +145,7 @@ where
         let unit = |ok: bool| if ok { r_unit() } else { r_panic() };
         match ev {
             "sig_next" | "sig_next_squared" => {
-                let x = dec_frame::<S, N>(&op["a"]["x"]);
+                let x = dec_frame_sc::<S, N>(&op["a"]["x"], sc);
                 offer(&queue, x);
                 let (r, h, _) = measured(|| {
                     catch(|| match insts[i].as_mut().unwrap() {
@@ -200,9 +201,16 @@ where
                 insts[i] = m;
                 out.ev(ev, json!({"i": i}), r, json!({}), h);
             }
+            // (the adaptor implements no Debug: only a bare detector can be rendered; on an adaptor the event is not executed)
+            "rms_fmt" => {
+                if let RmsInst::Direct(rms) = insts[i].as_ref().unwrap() {
+                    let (r, o, h) = fmt_call(rms);
+                    out.ev(ev, json!({"i": i}), r, o, h);
+                }
+            }
             _ => match insts[i].as_mut().unwrap() {
                 RmsInst::Direct(rms) => {
-                    let (a, r, h) = direct_call::<S, St, N>(rms, ev, op);
+                    let (a, r, h) = direct_call::<S, St, N>(rms, ev, op, sc);
                     out.ev(ev, with_i(a, i), ret_json::<S, N>(r), json!({}), h);
                 }
                 RmsInst::Sig(_) => out.ev(ev, json!({"i": i, "z": 0}), r_panic(), json!({}), [0, 0, 0]),
@@ -240,7 +248,9 @@ where
     S: Fmt,
     S::Signed: Fmt,
 {
-    out.line(&json!({"ev":"reset","comp":"rect","cfg":reset["cfg"],"r":r_unit(),"o":{"ok":true}}));
+    let mut cfg = reset["cfg"].clone();
+    cfg["profile"] = json!(profile());
+    out.line(&json!({"ev":"reset","comp":"rect","cfg":cfg,"r":r_unit(),"o":{"ok":true}}));
     enum R<A, B> {
         Own(A),
         Signed(B),
@@ -328,7 +338,7 @@ fn env_run<S, OS, D, Sh, const N: usize>(out: &mut Out, reset: &Value, ops: &[Va
 where
     S: Fmt,
     OS: Fmt,
-    D: Detect<[S; N], Output = [OS; N]> + Clone,
+    D: Detect<[S; N], Output = [OS; N]> + Clone + std::fmt::Debug,
     Sh: FnMut([S; N]) -> [OS; N] + Clone,
 {
     // the logged header always carries nza / nzr (negative-zero attack / release time), srclen (-1 = none),
@@ -341,6 +351,7 @@ where
     cfg["src"] = json!(cfg["src"].as_str().unwrap_or("iter"));
     cfg["ctor"] = json!(cfg["ctor"].as_str().unwrap_or("named"));
     cfg["store"] = json!(cfg["store"].as_str().unwrap_or("vec"));
+    cfg["profile"] = json!(profile());
     let via_signal = cfg["via"].as_str().unwrap_or("direct") == "signal";
     let gen = cfg["src"] == "gen";
     let (af, rf) = (frames_of(&cfg["attack"], &cfg["nza"]), frames_of(&cfg["release"], &cfg["nzr"]));
@@ -426,6 +437,15 @@ where
                     })
                 });
                 out.ev(&name("set"), a, unit(r.is_some()), json!({"hint": f32f(hint(fr))}), h);
+            }
+            // `{:?}` of the detector (derived Debug: frame, detection -- for RMS detection the Rms with its window --,
+            // gains) into a sink without heap memory.  DetectEnvelope implements no Debug: on an adaptor
+            // instance the event is not executed.
+            "env_fmt" => {
+                if let EnvInst::Direct(d) = &insts[i].as_ref().unwrap().0 {
+                    let (r, o, h) = fmt_call(d);
+                    out.ev("env_fmt", json!({"i": i}), r, o, h);
+                }
             }
             "env_clone" | "env_sig_clone" => {
                 let j = insts.len();
@@ -543,7 +563,7 @@ fn env_rms_st<S, St, const N: usize>(out: &mut Out, reset: &Value, ops: &[Value]
 where
     S: Fmt,
     S::Float: Fmt,
-    St: Slice<Element = FF<S, N>> + SliceMut + Clone,
+    St: Slice<Element = FF<S, N>> + SliceMut + Clone + std::fmt::Debug,
 {
     let c = ctor_of(reset);
     let mut sh = Rms::<[S; N], St>::new(win());
@@ -647,7 +667,7 @@ fn frame(rng: &mut Rng, fmt: &str, ch: usize, loud: i64, exact: bool, avoid_min:
     )
 }
 
-fn gen_rms(rng: &mut Rng, crng: &mut Rng, thorough: bool, execs: &mut Vec<Vec<Value>>) {
+fn gen_rms(rng: &mut Rng, crng: &mut Rng, frng: &mut Rng, thorough: bool, execs: &mut Vec<Vec<Value>>) {
     let fmts = ["f32", "f64", "i8", "i16", "i32", "u16"];
     // (window, how many executions): every history is 50 * window frames long
     let plan: &[(usize, usize)] = if thorough {
@@ -723,6 +743,10 @@ fn gen_rms(rng: &mut Rng, crng: &mut Rng, thorough: bool, execs: &mut Vec<Vec<Va
                     }
                 }
                 let t = if vias.len() > 1 { crng.below(vias.len() as u64) as usize } else { 0 };
+                // (round 5, own generator `frng`) the bare detector is rendered with {:?} now and then
+                if vias[t] == "direct" && frng.chance(1, 24) {
+                    ex.push(json!({"ev":"rms_fmt","a":{"i":t}}));
+                }
                 // passages: mostly normal level, sometimes a loud burst or a quiet stretch
                 if bursty && rng.chance(1, (2 * n as u64).max(8)) {
                     loud = *rng.pick(&[0, 0, 0, 10, 12, -12, -6, 4]);
@@ -802,7 +826,65 @@ fn gen_rms_absorb(rng: &mut Rng, thorough: bool, execs: &mut Vec<Vec<Value>>) {
     }
 }
 
-fn gen_env(rng: &mut Rng, crng: &mut Rng, thorough: bool, execs: &mut Vec<Vec<Value>>) {
+/// The value range of the float formats (round 5): whole executions placed in one region of magnitudes, from just
+/// below the point where the window's sum of squares would overflow down to inputs whose squares are subnormal
+/// or vanish.  Region E: samples (1 + frac) 2^e, full mantissa, e in E-9 .. E-1, with passages shifted toward
+/// the middle of the range by up to 12 binary orders.  The regions straddle the landmarks of BOTH formats for f64
+/// frames (mean squares around f32::MAX and around the smallest f32 subnormal) -- an f64 path that passes
+/// through single precision anywhere shows there.  The domain ends where N x^2 could come within two binary
+/// orders of the format's largest finite value (Trace_Rms: InputOK); the generator stays inside for N <= 64.
+fn gen_rms_range(rng: &mut Rng, thorough: bool, execs: &mut Vec<Vec<Value>>) {
+    let regions: &[(&str, i64)] = &[
+        ("f64", 505), ("f64", 300), ("f64", 75), ("f64", 64), ("f64", 40), ("f64", -40), ("f64", -70), ("f64", -300),
+        ("f64", -500), ("f64", -515), ("f64", -540),
+        ("f32", 59), ("f32", 30), ("f32", -30), ("f32", -58), ("f32", -66), ("f32", -80), ("f32", -125),
+    ];
+    let wins = [1usize, 2, 3, 5, 8, 64, 4, 16, 33];
+    let mut k = 0usize;
+    for rep in 0..(if thorough { 4 } else { 1 }) {
+        for &(fmt, e0) in regions {
+            let n = wins[(k + rep) % wins.len()];
+            let ch = 1 + (k + rep) % 3;
+            let via = if k % 5 == 4 { "signal" } else { "direct" };
+            let store = if via == "signal" { *rng.pick(&["vec", "box"]) } else if n <= 4 { *rng.pick(&["vec", "array", "slice"]) } else { *rng.pick(&["vec", "box", "slice"]) };
+            k += 1;
+            let mut ex = vec![json!({"ev":"reset","comp":"rms","cfg":{"n":n,"fmt":fmt,"ch":ch,"via":via,"store":store,"src":"iter"}})];
+            let total = (6 * n).max(24).min(130);
+            let toward_middle: i64 = if e0 > 0 { -1 } else { 1 };
+            let mut shift = 0i64;
+            for _ in 0..total {
+                if rng.chance(1, (2 * n as u64).max(8)) {
+                    shift = toward_middle * *rng.pick(&[0, 0, 0, 6, 10, 12]);
+                }
+                let x = frame(rng, fmt, ch, e0 + shift, false, false);
+                let p = rng.below(100);
+                if via == "signal" {
+                    ex.push(json!({"ev": if p < 60 {"sig_next"} else {"sig_next_squared"}, "a": {"i": 0, "x": x}}));
+                } else if p < 50 {
+                    ex.push(json!({"ev":"next","a":{"i":0,"x":x}}));
+                } else if p < 85 {
+                    ex.push(json!({"ev":"next_squared","a":{"i":0,"x":x}}));
+                } else if p < 95 {
+                    ex.push(json!({"ev":"current","a":{"i":0,"z":0}}));
+                } else {
+                    ex.push(json!({"ev":"rms_reset","a":{"i":0,"z":0}}));
+                    ex.push(json!({"ev":"current","a":{"i":0,"z":0}}));
+                }
+            }
+            if via == "direct" {
+                ex.push(json!({"ev":"rms_reset","a":{"i":0,"z":0}}));
+                for _ in 0..(n.min(8) + 1) {
+                    let x = frame(rng, fmt, ch, e0, false, false);
+                    ex.push(json!({"ev": if rng.chance(1, 2) {"next"} else {"next_squared"}, "a": {"i": 0, "x": x}}));
+                }
+                ex.push(json!({"ev":"current","a":{"i":0,"z":0}}));
+            }
+            execs.push(ex);
+        }
+    }
+}
+
+fn gen_env(rng: &mut Rng, crng: &mut Rng, frng: &mut Rng, thorough: bool, execs: &mut Vec<Vec<Value>>) {
     // rectifiers: random values of every width on all 14 formats x 1..4 channels
     let all = ["i8", "i16", "i24", "i32", "i48", "i64", "u8", "u16", "u24", "u32", "u48", "u64", "f32", "f64"];
     let per = if thorough { 60 } else { 12 };
@@ -893,6 +975,11 @@ fn gen_env(rng: &mut Rng, crng: &mut Rng, thorough: bool, execs: &mut Vec<Vec<Va
             }
             // the instance this step's setter / frame goes to
             let t = if live > 1 { crng.below(live as u64) } else { 0 };
+            // (round 5, own generator `frng`) the detector is rendered with {:?} now and then (the driver executes it
+            // when the instance is a bare detector at that moment; the adaptor has no Debug)
+            if frng.chance(1, 16) {
+                ex.push(json!({"ev": "env_fmt", "a": {"i": t}}));
+            }
             let in_zero = zero_phase.map_or(false, |(a, b)| a <= i && i < b);
             if let Some((a, b)) = zero_phase {
                 if i == a && a > 0 {
@@ -971,11 +1058,12 @@ fn main() {
             let only = args.get(5).map(|s| s.as_str()).unwrap_or("all");
             let mut execs = Vec::new();
             if only == "all" || only == "rms" {
-                gen_rms(&mut Rng::new(seed ^ 0x11), &mut Rng::new(seed ^ 0x1c11), thorough, &mut execs);
+                gen_rms(&mut Rng::new(seed ^ 0x11), &mut Rng::new(seed ^ 0x1c11), &mut Rng::new(seed ^ 0x1f11), thorough, &mut execs);
                 gen_rms_absorb(&mut Rng::new(seed ^ 0x13), thorough, &mut execs);
+                gen_rms_range(&mut Rng::new(seed ^ 0x1511), thorough, &mut execs);
             }
             if only == "all" || only == "env" {
-                gen_env(&mut Rng::new(seed ^ 0x19), &mut Rng::new(seed ^ 0x1c19), thorough, &mut execs);
+                gen_env(&mut Rng::new(seed ^ 0x19), &mut Rng::new(seed ^ 0x1c19), &mut Rng::new(seed ^ 0x1f19), thorough, &mut execs);
             }
             write_stimuli(&c.a3, &execs);
         }
